@@ -10,9 +10,11 @@
    entry point ([i_entry]: verifier.Verify, VerifyBlob, SkipVerify, notation.Verify,
    notation.VerifyBlob, outcome.UserMetadata), every answer of the dependencies
    ([scenario]), every list of signatures of any length and every attempt limit (any Z).
-   [wf] = the contracts of the injected components only (an in-process plugin / revocation
-   validator / caller-supplied Verifier that returns no error returns a usable value; the
-   policy documents are still as the constructor validated them).
+   [wf] = the contracts of the injected components only (an in-process plugin / caller-supplied
+   Verifier that returns no error returns a usable value; the policy documents are still as
+   the constructor validated them). Since fix d78db00 there is NO contract on the revocation
+   validator any more: every answer, also one that is not one result per certificate, returns
+   normally (C12_before_fix_d78db00_refuted).
    Crash-freedom of the third-party decoders on arbitrary bytes is NOT a theorem: it is
    explored by the harness (evidence keys "exploration_..."). *)
 From NV Require Import Base Regex Generated C12_Model C12_Proofs C12_Audit.
@@ -143,11 +145,26 @@ Theorem C12_before_fix_00e9a29_refuted :
 Proof. exact prefix_00e9a29_refuted. Qed.
 Print Assumptions C12_before_fix_00e9a29_refuted.
 
+(* before fix d78db00 a revocation validator answering with a nil entry, or with another number
+   of results than certificates, reached a dereference (revocationFinalResult); now such an answer
+   is an ordinary revocation failure: under an enforcing level the outcome carries the error,
+   under a logging level verification goes on with the failure recorded. The contract on the
+   validator is no longer part of [wf]. *)
+Theorem C12_before_fix_d78db00_refuted :
+  native_v0 LStrict (sc_rev RevBadShape) [] = NPanic /\
+  native LStrict (sc_rev RevBadShape) [] =
+    NStop (XResult TRev) [(TInt, false); (TAuth, false); (TExp, false); (TTs, false); (TRev, true)] /\
+  (exists o, model (i_base EVerifyBlob (v_strict PMNil) VLib (sc_rev RevBadShape)) = ORet false None [Some o] (Some (XResult TRev)) /\
+             oc_err o = Some (XResult TRev)) /\
+  (exists o, model (i_base EVerify (mk_v (Some (SelLevel LAudit)) None PMNil) VLib (sc_rev RevBadShape)) = ORet false None [Some o] None /\
+             oc_results o = [(TInt, false); (TAuth, false); (TExp, false); (TTs, false); (TRev, true)]).
+Proof. exact prefix_d78db00_refuted. Qed.
+Print Assumptions C12_before_fix_d78db00_refuted.
+
 (* [wf] cannot be weakened: each contract violated alone reaches a dereference *)
 Theorem C12_contracts_needed :
   model (i_base EVerify (v_strict (PMPlugin MetaNil)) VLib (sc_plugin (PResp true (Some true) (Some true)))) = OPanic /\
   model (i_base EVerify (v_strict (PMPlugin (Meta true [CapTI]))) VLib (sc_plugin PRNil)) = OPanic /\
-  model (i_base EVerifyBlob (v_strict PMNil) VLib (sc_rev RevBadShape)) = OPanic /\
   model (i_base ENVerifyBlob (v_strict PMNil) (VCustom None false) sc_good) = OPanic /\
   model (i_base EVerify (mk_v (Some SelBadLevel) None PMNil) VLib sc_good) = OPanic.
 Proof. exact contracts_needed. Qed.
@@ -259,8 +276,7 @@ Theorem C12_nil_plugin_manager_no_plugin : forall l sc r,
 Proof. exact nil_pm_plugin_irrelevant. Qed.
 Print Assumptions C12_nil_plugin_manager_no_plugin.
 
-Theorem C12_nil_plugin_manager_no_panic : forall l sc,
-  s_rev sc <> RevBadShape -> process_signature l PMNil sc <> PSPanic.
+Theorem C12_nil_plugin_manager_no_panic : forall l sc, process_signature l PMNil sc <> PSPanic.
 Proof. exact nil_pm_no_panic. Qed.
 Print Assumptions C12_nil_plugin_manager_no_panic.
 
